@@ -64,6 +64,7 @@ type coreOpts struct {
 	ha            bool // single node with an in-memory HA lock: unseal goes to standby, then acquires leadership
 	retryBase     time.Duration // base of the revocation retry back-off (0 = the default of 10s)
 	crossNSIdentity bool        // unsafe_cross_namespace_identity: identity groups may have members from other namespaces
+	raw             bool        // raw_storage_endpoint: sys/raw is served
 }
 
 // errCoreWedged: a core did not finish its shutdown within the harness' patience (a liveness problem outside the
@@ -123,6 +124,7 @@ func newCoreConfig(ct *caseT, o *coreOpts) *CoreConfig {
 	conf.NumExpirationWorkers = numExpirationWorkersTest
 	conf.ExpirationRevokeRetryBase = o.retryBase
 	conf.UnsafeCrossNamespaceIdentity = o.crossNSIdentity
+	conf.EnableRaw = o.raw
 	if o.ha {
 		hab, err := inmem.NewInmemHA(nil, log.NewNullLogger())
 		if err != nil {
